@@ -316,6 +316,98 @@ def c17_tape(check, pid, tier, seed):
 
 
 
+def reentrant(check, pid, tier, seed):
+    """Re-entrant user code (sim/src/reentrant.rs): Clone / PartialEq called by the library releases
+    other owners of the same allocation, may panic, and the destructor of the value whose last
+    owner the library thereby became may panic. Returns (coverage dict, reported infos, scenarios)."""
+    import shutil
+    t0 = time.time()
+    cov_all, viols, stats = {}, [], []
+    total = 160000 if tier == "quick" else 4800000
+    nw = check.NCPU
+    per = (total + nw - 1) // nw
+    tmp = os.path.join(check.TMP, pid + "-reentrant")
+    shutil.rmtree(tmp, ignore_errors=True)
+    os.makedirs(tmp, exist_ok=True)
+    hashes = set()
+    bins = {}
+    for cfg in ("A", "B"):
+        binp = check._BIN.get(cfg) or check.build(cfg)
+        check._BIN[cfg] = binp
+        bins[cfg] = binp
+        procs = []
+        for w in range(nw):
+            lo, hi = w * per, min(total, (w + 1) * per)
+            if lo >= hi:
+                continue
+            outp = os.path.join(tmp, f"{cfg}{w}.out")
+            f = open(outp, "w")
+            p = subprocess.Popen([binp, "reentrant", "--seed", str(seed), "--from", str(lo), "--to", str(hi), "--out-dir", tmp, "--hashes", os.path.join(tmp, f"{cfg}{w}.hashes")], stdout=f, stderr=subprocess.DEVNULL)
+            f.close()
+            procs.append((p, outp, w))
+        for p, outp, w in procs:
+            rc = p.wait()
+            st, vcls, vdet, replay, last, herr, ctx = check.parse_worker_output(outp)
+            hashes |= check.read_hashes(os.path.join(tmp, f"{cfg}{w}.hashes"))
+            if herr or rc == 2:
+                check.harness_error(f"reentrant worker: {herr or 'exit 2'}")
+            if rc == 0 and st:
+                stats.append(st)
+            elif rc == 3 and vcls:
+                viols.append((vcls, vdet, replay, cfg))
+            else:
+                viols.append((f"signal:{rc}", f"reentrant worker (cfg {cfg}) died with status {rc}", None, cfg))
+    os.makedirs(check.REPLAYS, exist_ok=True)
+    reported, known_hit = [], []
+    known = check.load_known()
+    seen = set()
+    for cls, det, replay, cfg in viols:
+        if (cls, det) in seen or len(seen) >= 8:
+            continue
+        seen.add((cls, det))
+        path = os.path.join(check.REPLAYS, f"{pid}-reentrant-{seed}-{len(seen)}.replay")
+        if replay and os.path.exists(replay):
+            with open(replay) as f:
+                text = f.read()
+            with open(path, "w") as f:
+                f.write(text + f"# cfg: {cfg}\n")
+            c = subprocess.run([bins[cfg], "reentrant-replay", path], stdout=subprocess.PIPE, stderr=subprocess.DEVNULL, text=True)
+            if c.returncode != 3:
+                check.harness_error(f"reentrant violation {cls} did not reproduce from {path}")
+        else:
+            with open(path, "w") as f:
+                f.write(f"# no replay file was produced\n# class: {cls}\n# detail: {det}\n")
+        info = dict(cls=cls, detail=det, replay=path, props={pid})
+        k = check.match_known(known, pid, info)
+        if k:
+            print(f"KNOWN-FINDING: property={pid} {k['signature']}", flush=True)
+            known_hit.append({"signature": k["signature"]})
+            continue
+        reported.append(info)
+    tot = check.merge_stats(stats)
+    ops = ["Arc::make_mut", "Arc::make_unique", "OffsetArc::make_mut", "Arc::unwrap_or_clone", "Arc::eq"]
+    kinds = ["Arc", "OffsetArc", "ArcUnion(first)", "ArcUnion(second)", "raw pointer"]
+    cov = {"reentrant_callbacks": {
+        "scenarios": int(tot.get("runs", 0)),
+        "distinct_scenario_shapes": len(hashes),
+        "rule": "one scenario = (operation, 0-3 other owners of random kinds, which of them the payload's Clone/PartialEq releases while the library is inside the call, "
+                "whether that callback then panics, whether the destructor of the original value panics); both build configurations; the space has about 2*10^4 shapes, so a quick run visits nearly all of it",
+        "by_operation": dict(zip(ops, tot.get("by_op") or [])),
+        "fault_kinds_fired": {"sibling_handles_released_inside_a_callback": int(tot.get("siblings_released_in_callback", 0)),
+                              "by_released_handle_kind": dict(zip(kinds, tot.get("by_sibling_kind") or [])),
+                              "callback_panics_after_releasing": int(tot.get("callback_panics", 0)),
+                              "destructor_panics_of_the_value_whose_last_owner_the_call_became": int(tot.get("destructor_panics", 0))},
+        "calls_that_became_last_owner_inside_the_call": int(tot.get("became_last_owner_inside_call", 0)),
+        "outcomes": {"in_place": int(tot.get("in_place", 0)), "copied": int(tot.get("copied", 0)), "moved_out": int(tot.get("moved_out", 0))},
+        "blocks_left_behind_after_unwinding_tolerated": int(tot.get("blocks_left_after_unwinding", 0)),
+        "components": {"real_code": ["triomphe (Arc::make_mut, make_unique, unwrap_or_clone, PartialEq, OffsetArc::make_mut, ArcUnion, raw-pointer round trips, every Drop)"],
+                       "stub_or_shim": ["payload type (identity table, re-entrant Clone/PartialEq, panicking destructor)", "the global allocator (ledger with quarantine)"]},
+        "known_findings_matched": known_hit,
+        "wall_s": round(time.time() - t0, 3)}}
+    shutil.rmtree(tmp, ignore_errors=True)
+    return cov, reported, int(tot.get("runs", 0))
+
+
 # ------------------------------------------------------------------------------------------- Miri-scheduled scenarios
 
 MIRI_CLASS = {"C02": ["c02"], "C03": ["c03"], "C04": ["c04"], "C08": ["c08"], "C09": ["c09"],
